@@ -30,7 +30,7 @@ POSITIONS = {
     "fdb": ("FDB", "{e}", "fdb"),
     "fcb": ("FCB", "{e}", "fcb"),
 }
-LEAVES = ["D3", "D5", "H2", "H4", "equb:D5", "equa:H4", "equb:H2", "equa:D3", "equb:B8", "equb:char", "lblb", "lbla"]
+LEAVES = ["D3", "D5", "H2", "H4", "equb:D5", "equa:H4", "equb:H2", "equa:D3", "equb:B8", "equb:char", "lblb", "lbla", "equb:N3", "equa:N5"]
 
 
 def oexpr(op, l, r):
@@ -43,7 +43,8 @@ def oexpr(op, l, r):
         return l * r
     if r == 0:
         return None
-    return l // r
+    q = abs(l) // abs(r)                      # truncating division (towards zero), also for negative EQU constants
+    return q if (l >= 0) == (r >= 0) else -q
 
 
 def make(pos, lk, rk, op):
@@ -68,6 +69,7 @@ def make(pos, lk, rk, op):
                 else:
                     t, v = ctx.lit(cls, side)
                     ctx.assume(v <= 65535)
+                    ctx.assume(v >= -32768)          # a 16-bit quantity (an EQU below -32768 is rightly rejected)
                 (pre if where == "b" else post).append("%s EQU %s" % (name, t))
                 return name, v
             if kindname == "lblb":
@@ -173,12 +175,12 @@ def obligations(tier, seed):
     pairs_all = [(a, b) for a in LEAVES for b in LEAVES]
     core_pairs = [("D5", "D5"), ("H4", "D3"), ("D3", "H2"), ("equb:D5", "D3"), ("D5", "equa:H4"), ("equb:H2", "equa:D3"),
                   ("lblb", "D3"), ("lbla", "D3"), ("D3", "lblb"), ("equb:B8", "equb:char"), ("lblb", "equb:D5"),
-                  ("equa:H4", "lbla")]
+                  ("equa:H4", "lbla"), ("equb:N3", "D3"), ("D3", "equa:N5"), ("equb:N3", "equa:N5"), ("lblb", "equb:N3")]
     for pos in POSITIONS:
         for op in "+-*/":
             pairs = pairs_all if full else core_pairs
             if not full and pos not in ("imm16", "mem16", "idx", "fdb"):
-                pairs = core_pairs[:4] + rnd.sample(core_pairs[4:], 3)
+                pairs = core_pairs[:4] + rnd.sample(core_pairs[4:12], 3) + core_pairs[12:14]
             for lk, rk in pairs:
                 if "lbl" in lk and "lbl" in rk:
                     continue
